@@ -813,7 +813,7 @@ func ruleGlobalEscape(c *Ctx) []Obligation {
 // ---------------------------------------------------------------- REV.BAREKEY
 
 func init() {
-	register(&Rule{Name: "REV.BAREKEY", Props: []string{"C13", "C05"}, Floor: 4,
+	register(&Rule{Name: "REV.BAREKEY", Props: []string{"C13", "C05", "C04", "C07", "C09"}, Floor: 4,
 		Doc: "every string-keyed table whose keys are built from bare module names (which several loaded revisions share) is either keyed with the revision as well or has a recorded reason why name granularity is right",
 		Run: ruleRevBareKey})
 }
@@ -948,8 +948,8 @@ func ruleRevBareKey(c *Ctx) []Obligation {
 		switch {
 		case !t.bare:
 			obs = append(obs, ok(R, con, t.pos, "every key written carries the revision (FullName / revision date)"))
-		case bareKeyJustified[n] != "":
-			obs = append(obs, just(R, con, t.bareAt, bareKeyJustified[n]))
+		case jstr("bareKeyJustified", bareKeyJustified, n) != "":
+			obs = append(obs, just(R, con, t.bareAt, jstr("bareKeyJustified", bareKeyJustified, n)))
 		default:
 			obs = append(obs, bad(R, con, t.bareAt, "the key is built from a bare module name, which every loaded revision of the module shares: entries for different revisions overwrite or shadow each other (whichever is visited first wins), so the outcome differs from the one a single loaded revision gives"))
 		}
